@@ -132,6 +132,8 @@ structure MSigLe (r' r : Req) : Prop where
   fr : r'.frame = r.frame ∨ r'.frame = .done
   out : r'.outcome = none → r.outcome = none
   wk : r.mapSem.WakeInv → r'.mapSem.WakeInv
+  /-- the ghost snapshot of a spawner that is running its own handle is left alone -/
+  sr : (r.frame = .running ∨ r.frame = .done) → r'.cancelSnap = r.cancelSnap
   pge : r'.outcome = none → r.pend ≤ r'.pend
 
 /-- a request whose own books are balanced without any task (a newly registered one) -/
@@ -162,7 +164,7 @@ theorem FreshReq.le {r' r : Req} (h : FreshReq r) (hle : MSigLe r' r) : FreshReq
       · right; left; exact e⟩
 
 theorem MSigLe.refl (r : Req) : MSigLe r r :=
-  ⟨rfl, rfl, rfl, Nat.le_refl _, fun h => h, rfl, Or.inl rfl, fun h => h, fun h => h, fun _ => Nat.le_refl _⟩
+  ⟨rfl, rfl, rfl, Nat.le_refl _, fun h => h, rfl, Or.inl rfl, fun h => h, fun h => h, fun _ => rfl, fun _ => Nat.le_refl _⟩
 
 theorem MSigLe.trans {a b c : Req} (h1 : MSigLe b a) (h2 : MSigLe c b) : MSigLe c a :=
   ⟨h2.value.trans h1.value, h2.grants.trans h1.grants, h2.nc.trans h1.nc, Nat.le_trans h2.pend h1.pend,
@@ -172,6 +174,12 @@ theorem MSigLe.trans {a b c : Req} (h1 : MSigLe b a) (h2 : MSigLe c b) : MSigLe 
         · exact Or.inl (e.trans e1)
         · exact Or.inr (e.trans e1)
       · exact Or.inr e, fun hnd => h1.out (h2.out hnd), fun h => h2.wk (h1.wk h),
+      fun hr => by
+        have hb : b.frame = .running ∨ b.frame = .done := by
+          rcases h1.fr with e | e
+          · rw [e]; exact hr
+          · exact Or.inr e
+        exact (h2.sr hb).trans (h1.sr hr),
       fun hnd => Nat.le_trans (h1.pge (h2.out hnd)) (h2.pge hnd)⟩
 
 /-- slot conservation of every call's own semaphore, as an inequality (a spawner that dies with an exception while it
@@ -283,6 +291,209 @@ theorem WakeOK.of_eq {p q : Pool} (h : WakeOK p) (hs : q.sem = p.sem) (hr : q.re
   rw [hs] at b d ⊢
   exact h (hr ▸ a) v b c d
 
+/-! ### cancelled spawners stay stopped -/
+
+/-- the first waiter entry of `owner` (the future it is suspended on) has been cancelled -/
+def ownCancelled (m : Nat) (ws : List Waiter) : Prop := (removeWaiterL m ws).1 = some .cancelled
+
+theorem ownCancelled_cons (m : Nat) (w : Waiter) (ws : List Waiter) :
+    ownCancelled m (w :: ws) ↔ (if w.owner = m then w.st = .cancelled else ownCancelled m ws) := by
+  unfold ownCancelled
+  simp only [removeWaiterL]
+  split <;> simp
+
+theorem ownCancelled_cons_mono (m' : Nat) (w w' : Waiter) (ws ws' : List Waiter) (ho : w'.owner = w.owner)
+    (hs : w.st = .cancelled → w'.st = .cancelled) (ht : ownCancelled m' ws → ownCancelled m' ws')
+    (h : ownCancelled m' (w :: ws)) : ownCancelled m' (w' :: ws') := by
+  rw [ownCancelled_cons] at h ⊢
+  rw [ho]
+  by_cases e : w.owner = m'
+  · rw [if_pos e] at h ⊢; exact hs h
+  · rw [if_neg e] at h ⊢; exact ht h
+
+theorem ownCancelled_cancel (m m' : Nat) (ws : List Waiter) (h : ownCancelled m' ws) : ownCancelled m' (cancelWaiterL m ws) := by
+  induction ws with
+  | nil => exact h
+  | cons w ws ih =>
+    simp only [cancelWaiterL, List.map_cons] at ih ⊢
+    refine ownCancelled_cons_mono m' w _ ws _ ?_ ?_ ih h
+    · split <;> rfl
+    · intro hc; split
+      · rfl
+      · exact hc
+
+theorem ownCancelled_of_pending (m : Nat) (ws : List Waiter) (h : (removeWaiterL m ws).1 = some .pending) :
+    ownCancelled m (cancelWaiterL m ws) := by
+  induction ws with
+  | nil => simp [removeWaiterL] at h
+  | cons w ws ih =>
+    simp only [cancelWaiterL, List.map_cons] at ih ⊢
+    rw [ownCancelled_cons]
+    simp only [removeWaiterL] at h
+    split at h
+    · rename_i e
+      simp only [Option.some.injEq] at h
+      simp [e, h]
+    · rename_i e
+      have : (if w.owner = m ∧ w.st = WaitSt.pending then { w with st := WaitSt.cancelled } else w).owner = w.owner := by
+        split <;> rfl
+      rw [this]
+      simp only [e, if_false]
+      exact ih h
+
+theorem ownCancelled_wake (m : Nat) (c : Cap) (ws : List Waiter) (h : ownCancelled m ws) :
+    ownCancelled m (wakeNextL c ws).2.1 := by
+  induction ws with
+  | nil => exact h
+  | cons w ws ih =>
+    rw [ownCancelled_cons] at h
+    unfold wakeNextL
+    split
+    · rename_i hp
+      simp only
+      rw [ownCancelled_cons]
+      split at h
+      · rename_i e; rw [hp] at h; cases h
+      · rename_i e; simp only [e, if_false]; exact h
+    · simp only
+      rw [ownCancelled_cons]
+      split at h
+      · rename_i e; simp only [e, if_true]; exact h
+      · rename_i e; simp only [e, if_false]; exact ih h
+
+theorem ownCancelled_append (m : Nat) (ws : List Waiter) (w : Waiter) (h : ownCancelled m ws) : ownCancelled m (ws ++ [w]) := by
+  induction ws with
+  | nil => simp [ownCancelled, removeWaiterL] at h
+  | cons a as ih =>
+    rw [ownCancelled_cons] at h
+    rw [List.cons_append, ownCancelled_cons]
+    split at h
+    · rename_i e; simp only [e, if_true]; exact h
+    · rename_i e; simp only [e, if_false]; exact ih h
+
+theorem ownCancelled_remove (m m' : Nat) (ws : List Waiter) (hne : m ≠ m') (h : ownCancelled m' ws) :
+    ownCancelled m' (removeWaiterL m ws).2 := by
+  induction ws with
+  | nil => exact h
+  | cons a as ih =>
+    rw [ownCancelled_cons] at h
+    simp only [removeWaiterL]
+    split
+    · rename_i e
+      have : ¬ a.owner = m' := fun e' => hne (e.symm.trans e')
+      simp only [this, if_false] at h
+      exact h
+    · simp only
+      rw [ownCancelled_cons]
+      split at h
+      · rename_i e; simp only [e, if_true]; exact h
+      · rename_i e; simp only [e, if_false]; exact ih h
+
+/-- the cancellation of spawner `m` is pending in a way its next step cannot miss -/
+def DoomedAt (p : Pool) (m : Nat) (r : Req) : Prop :=
+  r.mustCancel = true ∨ (r.frame = .waitRoom ∧ ownCancelled m p.sem.waiters) ∨
+  (r.frame = .waitMapSem ∧ ownCancelled m r.mapSem.waiters)
+
+/-- a spawner that was cancelled while suspended (or before it began) has created no task and pulled no element since,
+and is over or still doomed — the latter not demanded of the spawners in `E` (the one that is running right now) -/
+def CancEx (E : Nat → Prop) (p : Pool) : Prop :=
+  ∀ (m : Nat) (r : Req) (c u : Nat), p.reqs[m]? = some r → r.cancelSnap = some (c, u) →
+    r.created = c ∧ r.pulled = u ∧ (E m ∨ r.frame = .done ∨ DoomedAt p m r)
+
+def CancOK (p : Pool) : Prop := CancEx (fun _ => False) p
+
+theorem CancOK.ex {p : Pool} (h : CancOK p) (E : Nat → Prop) : CancEx E p := fun m r c u a b => by
+  obtain ⟨h1, h2, h3⟩ := h m r c u a b
+  exact ⟨h1, h2, h3.elim False.elim Or.inr⟩
+
+/-- … and back, once the exempted spawner is over, doomed, or was never cancelled -/
+theorem CancEx.close {p : Pool} {m : Nat} (h : CancEx (· = m) p)
+    (hm : ∀ r c u, p.reqs[m]? = some r → r.cancelSnap = some (c, u) → r.frame = .done ∨ DoomedAt p m r) : CancOK p :=
+  fun i r c u a b => by
+    obtain ⟨h1, h2, h3⟩ := h i r c u a b
+    refine ⟨h1, h2, Or.inr ?_⟩
+    rcases h3 with e | e
+    · subst e; exact hm r c u a b
+    · exact e
+
+/-- `r'` is `r` up to changes that neither advance a cancelled spawner nor take back its pending cancellation -/
+structure CSame (r' r : Req) : Prop where
+  cs : r'.cancelSnap = r.cancelSnap
+  cr : r'.created = r.created
+  pu : r'.pulled = r.pulled
+  fr : r'.frame = r.frame ∨ r'.frame = .done
+  mc : r.mustCancel = true → r'.mustCancel = true ∨ r'.frame = .done
+  mw : ∀ m, ownCancelled m r.mapSem.waiters → ownCancelled m r'.mapSem.waiters ∨ r'.frame = .done
+
+theorem CSame.refl (r : Req) : CSame r r := ⟨rfl, rfl, rfl, Or.inl rfl, fun h => Or.inl h, fun _ h => Or.inl h⟩
+
+theorem CancEx.frame {E : Nat → Prop} {p q : Pool} (h : CancEx E p)
+    (hw : ∀ m, ownCancelled m p.sem.waiters → ownCancelled m q.sem.waiters)
+    (hr : ∀ (m : Nat) (r' : Req), q.reqs[m]? = some r' →
+        (∃ r, p.reqs[m]? = some r ∧ CSame r' r) ∨ r'.cancelSnap = none) : CancEx E q := by
+  intro m r' c u hr' hs
+  rcases hr m r' hr' with ⟨r, a, b⟩ | e
+  · obtain ⟨h1, h2, h3⟩ := h m r c u a (by rw [← b.cs]; exact hs)
+    refine ⟨by rw [b.cr]; exact h1, by rw [b.pu]; exact h2, ?_⟩
+    rcases h3 with hE | h3
+    · exact Or.inl hE
+    right
+    rcases b.fr with e | e
+    · rcases h3 with d | d
+      · left; rw [e]; exact d
+      · rcases d with d | ⟨d1, d2⟩ | ⟨d1, d2⟩
+        · rcases b.mc d with x | x
+          · exact Or.inr (Or.inl x)
+          · exact Or.inl x
+        · exact Or.inr (Or.inr (Or.inl ⟨by rw [e]; exact d1, hw m d2⟩))
+        · rcases b.mw m d2 with x | x
+          · exact Or.inr (Or.inr (Or.inr ⟨by rw [e]; exact d1, x⟩))
+          · exact Or.inl x
+    · exact Or.inl e
+  · rw [e] at hs; cases hs
+
+/-- the same with spawner `m` exempt: its own waiter entry and its pending cancellation may go -/
+theorem CancEx.frameAt {m : Nat} {p q : Pool} (h : CancEx (· = m) p)
+    (hw : ∀ i, i ≠ m → ownCancelled i p.sem.waiters → ownCancelled i q.sem.waiters)
+    (hr : ∀ (i : Nat) (r' : Req), q.reqs[i]? = some r' →
+        (∃ r, p.reqs[i]? = some r ∧ ((i ≠ m ∧ CSame r' r) ∨
+          (i = m ∧ r'.cancelSnap = r.cancelSnap ∧ r'.created = r.created ∧ r'.pulled = r.pulled))) ∨
+        r'.cancelSnap = none) : CancEx (· = m) q := by
+  intro i r' c u hr' hs
+  rcases hr i r' hr' with ⟨r, a, ⟨hne, b⟩ | ⟨he, e1, e2, e3⟩⟩ | e
+  · obtain ⟨h1, h2, h3⟩ := h i r c u a (by rw [← b.cs]; exact hs)
+    refine ⟨by rw [b.cr]; exact h1, by rw [b.pu]; exact h2, ?_⟩
+    rcases h3 with hE | h3
+    · exact absurd hE hne
+    right
+    rcases b.fr with e | e
+    · rcases h3 with d | d
+      · left; rw [e]; exact d
+      · rcases d with d | ⟨d1, d2⟩ | ⟨d1, d2⟩
+        · rcases b.mc d with x | x
+          · exact Or.inr (Or.inl x)
+          · exact Or.inl x
+        · exact Or.inr (Or.inr (Or.inl ⟨by rw [e]; exact d1, hw i hne d2⟩))
+        · rcases b.mw i d2 with x | x
+          · exact Or.inr (Or.inr (Or.inr ⟨by rw [e]; exact d1, x⟩))
+          · exact Or.inl x
+    · exact Or.inl e
+  · obtain ⟨h1, h2, _⟩ := h i r c u a (by rw [← e1]; exact hs)
+    exact ⟨by rw [e2]; exact h1, by rw [e3]; exact h2, Or.inl he⟩
+  · rw [e] at hs; cases hs
+
+theorem CancEx.of_eq {E : Nat → Prop} {p q : Pool} (h : CancEx E p) (hr : q.reqs = p.reqs) (hs : q.sem.waiters = p.sem.waiters) :
+    CancEx E q :=
+  h.frame (fun m x => by rw [hs]; exact x) (fun m r' a => by rw [hr] at a; exact Or.inl ⟨r', a, CSame.refl r'⟩)
+
+theorem CancOK.frame {p q : Pool} (h : CancOK p)
+    (hw : ∀ m, ownCancelled m p.sem.waiters → ownCancelled m q.sem.waiters)
+    (hr : ∀ (m : Nat) (r' : Req), q.reqs[m]? = some r' →
+        (∃ r, p.reqs[m]? = some r ∧ CSame r' r) ∨ r'.cancelSnap = none) : CancOK q := CancEx.frame h hw hr
+
+theorem CancOK.of_eq {p q : Pool} (h : CancOK p) (hr : q.reqs = p.reqs) (hs : q.sem.waiters = p.sem.waiters) : CancOK q :=
+  CancEx.of_eq h hr hs
+
 /-- everything but the books of the map semaphores -/
 structure Good0 (cap : Cap) (L R : Bool) (p : Pool) : Prop where
   slot : SlotOK cap p
@@ -301,6 +512,7 @@ structure Good0 (cap : Cap) (L R : Bool) (p : Pool) : Prop where
 structure Good (cap : Cap) (L R : Bool) (p : Pool) : Prop extends Good0 cap L R p where
   map : MapOK p
   acc : AccOK p
+  canc : CancOK p
 
 /-- `q` is `p` up to changes that neither move a slot nor put a task (back) into a slot-holding phase -/
 structure Tame0 (p q : Pool) : Prop where
@@ -324,6 +536,7 @@ structure Tame (p q : Pool) : Prop extends Tame0 p q where
   rql : p.reqs.length ≤ q.reqs.length
   rq : ∀ (m : Nat) (r' : Req), q.reqs[m]? = some r' →
         (∃ r : Req, p.reqs[m]? = some r ∧ MSigLe r' r) ∨ (p.reqs.length ≤ m ∧ FreshReq r')
+  cok : ∀ E : Nat → Prop, CancEx E p → CancEx E q
 
 theorem Tame0.pt {p q : Pool} (h : Tame0 p q) (t : Nat) (tk' : PTask) (ht : q.tasks[t]? = some tk') :
     ∃ tk : PTask, p.tasks[t]? = some tk ∧ tk'.released = tk.released ∧ (tk'.phase = tk.phase ∨ NYR tk'.phase = false) := by
@@ -390,7 +603,7 @@ theorem Tame0.refl (p : Pool) : Tame0 p p :=
   ⟨rfl, rfl, rfl, rfl, rfl, rfl, rfl, fun h => h, List.Sublist.refl _, fun _ tk' h => ⟨tk', h, rfl⟩, rfl, fun h => h, fun h => h, rfl⟩
 
 theorem Tame.refl (p : Pool) : Tame p p :=
-  ⟨Tame0.refl p, Nat.le_refl _, fun _ r' h => Or.inl ⟨r', h, MSigLe.refl r'⟩⟩
+  ⟨Tame0.refl p, Nat.le_refl _, fun _ r' h => Or.inl ⟨r', h, MSigLe.refl r'⟩, fun _ h => h⟩
 
 theorem Tame0.trans {p q r : Pool} (h1 : Tame0 p q) (h2 : Tame0 q r) : Tame0 p r := by
   refine ⟨h2.val.trans h1.val, h2.grants.trans h1.grants, h2.len.trans h1.len, h2.run.trans h1.run,
@@ -402,7 +615,7 @@ theorem Tame0.trans {p q r : Pool} (h1 : Tame0 p q) (h2 : Tame0 q r) : Tame0 p r
   exact ⟨tk, hp, e2.trans e1⟩
 
 theorem Tame.trans {p q r : Pool} (h1 : Tame p q) (h2 : Tame q r) : Tame p r := by
-  refine ⟨h1.toTame0.trans h2.toTame0, Nat.le_trans h1.rql h2.rql, ?_⟩
+  refine ⟨h1.toTame0.trans h2.toTame0, Nat.le_trans h1.rql h2.rql, ?_, fun E h => h2.cok E (h1.cok E h)⟩
   intro m r'' h
   rcases h2.rq m r'' h with ⟨r', hq, e2⟩ | ⟨hge, hf⟩
   · rcases h1.rq m r' hq with ⟨r, hp, e1⟩ | ⟨hge, hf⟩
@@ -624,7 +837,7 @@ theorem Tame0.good0 {cap : Cap} {L R : Bool} {p q : Pool} (h : Tame0 p q) (hg : 
       rw [← e]; exact hg.al hl B hB⟩
 
 theorem Tame.good {cap : Cap} {L R : Bool} {p q : Pool} (h : Tame p q) (hg : Good cap L R p) : Good cap L R q :=
-  ⟨h.toTame0.good0 hg.toGood0, h.map hg.map, h.acc hg.acc⟩
+  ⟨h.toTame0.good0 hg.toGood0, h.map hg.map, h.acc hg.acc, h.cok _ hg.canc⟩
 
 /-- released flag of a task is preserved along a tame change -/
 theorem Tame0.released {p q : Pool} (h : Tame0 p q) (t : Nat) (tk : PTask) (hp : p.tasks[t]? = some tk) :
@@ -643,7 +856,7 @@ theorem tame_of_eq (p q : Pool) (hs : q.sem = p.sem) (ht : q.tasks = p.tasks)
     (h9 : q.resized = p.resized := by rfl) : Tame p q := by
   refine ⟨⟨by rw [hs], by rw [hs], by rw [ht], h1, h2, h3, h4, by rw [hs]; exact fun h => h, h5, ?_, by rw [h6],
     fun h => h.of_soft h8 h6 (by rw [ht]) (fun t tk' h => by rw [ht] at h; exact ⟨tk', h, rfl⟩),
-    fun h => h.of_eq hs h9, h9⟩, by rw [h7]; exact Nat.le_refl _, ?_⟩
+    fun h => h.of_eq hs h9, h9⟩, by rw [h7]; exact Nat.le_refl _, ?_, fun _ h => h.of_eq h7 (by rw [hs])⟩
   · intro t tk' h; rw [ht] at h; exact ⟨tk', h, rfl⟩
   · intro m r' h; rw [h7] at h; exact Or.inl ⟨r', h, MSigLe.refl r'⟩
 
@@ -653,17 +866,25 @@ theorem tame_of_map (p q : Pool) (f : Req → Req) (hs : q.sem = p.sem) (ht : q.
     (h1 : q.running = p.running := by rfl) (h2 : q.cancelledR = p.cancelledR := by rfl)
     (h3 : q.ended = p.ended := by rfl) (h4 : q.lost = p.lost := by rfl)
     (h5 : (flat q.groups).Sublist (flat p.groups) := by exact List.Sublist.refl _)
-    (h6 : q.apis = p.apis := by rfl) (h8 : q.gathers = p.gathers := by rfl) (h9 : q.resized = p.resized := by rfl) :
+    (h6 : q.apis = p.apis := by rfl) (h8 : q.gathers = p.gathers := by rfl) (h9 : q.resized = p.resized := by rfl)
+    (hc : ∀ x, CSame (f x) x := by intro x; first | exact ⟨rfl, rfl, rfl, Or.inl rfl, fun h => Or.inl h, fun _ h => Or.inl h⟩ | (split <;> exact ⟨rfl, rfl, rfl, Or.inl rfl, fun h => Or.inl h, fun _ h => Or.inl h⟩)) :
     Tame p q := by
   refine ⟨⟨by rw [hs], by rw [hs], by rw [ht], h1, h2, h3, h4, by rw [hs]; exact fun h => h, h5, ?_, by rw [h6],
     fun h => h.of_soft h8 h6 (by rw [ht]) (fun t tk' h => by rw [ht] at h; exact ⟨tk', h, rfl⟩),
-    fun h => h.of_eq hs h9, h9⟩, by rw [h7]; simp, ?_⟩
+    fun h => h.of_eq hs h9, h9⟩, by rw [h7]; simp, ?_, ?_⟩
   · intro t tk' h; rw [ht] at h; exact ⟨tk', h, rfl⟩
   · intro m r' h
     rw [h7, List.getElem?_map] at h
     cases hx : p.reqs[m]? with
     | none => simp [hx] at h
     | some x => simp [hx] at h; subst h; exact Or.inl ⟨x, rfl, hf x⟩
+  · intro E hk
+    refine hk.frame (fun m x => by rw [hs]; exact x) ?_
+    intro m r' h
+    rw [h7, List.getElem?_map] at h
+    cases hx : p.reqs[m]? with
+    | none => simp [hx] at h
+    | some x => simp [hx] at h; subst h; exact Or.inl ⟨x, rfl, hc x⟩
 
 namespace Pool
 
@@ -697,7 +918,7 @@ theorem tame_modTask (p : Pool) (t : Nat) (f : PTask → PTask)
     · rfl
   refine ⟨⟨rfl, rfl, by simp [modTask], rfl, rfl, rfl, rfl, fun h => h, List.Sublist.refl _, hsoft, rfl,
     fun h => h.of_soft rfl rfl (by simp [modTask]) hsoft, fun h => h.of_eq rfl rfl, rfl⟩, Nat.le_refl _,
-    fun _ r' h => Or.inl ⟨r', h, MSigLe.refl r'⟩⟩
+    fun _ r' h => Or.inl ⟨r', h, MSigLe.refl r'⟩, fun _ h => h.of_eq rfl rfl⟩
 
 /-- any change confined to the requests (and the ready handles) is tame as far as pool slots, phases, registries,
 groups and callbacks are concerned -/
@@ -714,13 +935,12 @@ theorem tame0_of_eq (p q : Pool) (hs : q.sem = p.sem) (ht : q.tasks = p.tasks)
 
 theorem tame0_modReq (p : Pool) (m : Nat) (f : Req → Req) : Tame0 p (p.modReq m f) := tame0_of_eq _ _ rfl rfl
 
-/-- an update of a request that moves no map slot -/
-theorem tame_modReq (p : Pool) (m : Nat) (f : Req → Req)
-    (hf : ∀ x, MSigLe (f x) x := by intro x; exact ⟨rfl, rfl, rfl, Nat.le_refl _, fun h => h, rfl, Or.inl rfl, fun h => h, fun h => h, fun _ => Nat.le_refl _⟩) :
-    Tame p (p.modReq m f) := by
+/-- an update of a request that moves no map slot, given what it does to `CancOK` -/
+theorem tame_modReq_of (p : Pool) (m : Nat) (f : Req → Req) (hf : ∀ x, MSigLe (f x) x)
+    (hcok : ∀ E : Nat → Prop, CancEx E p → CancEx E (p.modReq m f)) : Tame p (p.modReq m f) := by
   refine ⟨⟨rfl, rfl, rfl, rfl, rfl, rfl, rfl, fun h => h, List.Sublist.refl _, fun _ tk' h => ⟨tk', h, rfl⟩, rfl,
     fun h => h.of_soft rfl rfl rfl (fun _ tk' h => ⟨tk', h, rfl⟩), fun h => h.of_eq rfl rfl, rfl⟩,
-    by simp [modReq], ?_⟩
+    by simp [modReq], ?_, hcok⟩
   intro i r' h
   simp only [modReq] at h
   obtain ⟨x, hx, rfl⟩ := getElem?_modify_some p.reqs m i f r' h
@@ -728,6 +948,24 @@ theorem tame_modReq (p : Pool) (m : Nat) (f : Req → Req)
   split
   · exact hf x
   · exact MSigLe.refl x
+
+theorem _root_.Taskpool.CancEx.modReq {E : Nat → Prop} {p : Pool} (hk : CancEx E p) (m : Nat) (f : Req → Req)
+    (hc : ∀ x, CSame (f x) x) : CancEx E (p.modReq m f) := by
+  refine hk.frame (fun _ x => x) ?_
+  intro i r' h
+  simp only [Pool.modReq] at h
+  obtain ⟨x, hx, rfl⟩ := getElem?_modify_some p.reqs m i f r' h
+  refine Or.inl ⟨x, hx, ?_⟩
+  split
+  · exact hc x
+  · exact CSame.refl x
+
+/-- an update of a request that moves no map slot -/
+theorem tame_modReq (p : Pool) (m : Nat) (f : Req → Req)
+    (hf : ∀ x, MSigLe (f x) x := by intro x; exact ⟨rfl, rfl, rfl, Nat.le_refl _, fun h => h, rfl, Or.inl rfl, fun h => h, fun h => h, fun _ => rfl, fun _ => Nat.le_refl _⟩)
+    (hc : ∀ x, CSame (f x) x := by intro x; exact ⟨rfl, rfl, rfl, Or.inl rfl, fun h => Or.inl h, fun _ h => Or.inl h⟩) :
+    Tame p (p.modReq m f) := tame_modReq_of p m f hf (fun _ hk => hk.modReq m f hc)
+
 /-- rewriting background call `a` without putting it (back) into its second gather or touching its snapshot -/
 theorem _root_.Taskpool.FlushOK.modApi {p : Pool} (h : FlushOK p) (a : Nat) (f : Api → Api)
     (hk : ∀ x, (f x).kind = x.kind)
@@ -749,7 +987,8 @@ theorem _root_.Taskpool.FlushOK.modApi {p : Pool} (h : FlushOK p) (a : Nat) (f :
 theorem tame_modApi_of (p : Pool) (m : Nat) (f : Api → Api) (hk : ∀ x, (f x).kind = x.kind)
     (hfok : FlushOK p → FlushOK (p.modApi m f)) : Tame p (p.modApi m f) := by
   refine ⟨⟨rfl, rfl, rfl, rfl, rfl, rfl, rfl, fun h => h, List.Sublist.refl _, fun _ tk' h => ⟨tk', h, rfl⟩, ?_,
-    hfok, fun h => h.of_eq rfl rfl, rfl⟩, Nat.le_refl _, fun _ r' h => Or.inl ⟨r', h, MSigLe.refl r'⟩⟩
+    hfok, fun h => h.of_eq rfl rfl, rfl⟩, Nat.le_refl _, fun _ r' h => Or.inl ⟨r', h, MSigLe.refl r'⟩,
+    fun _ h => h.of_eq rfl rfl⟩
   simp only [modApi]
   apply List.ext_getElem?
   intro i
@@ -795,7 +1034,8 @@ theorem tame_modGather (p : Pool) (g : Nat) (f : Gather → Gather) (hc : ∀ G,
     (ho : ∀ G, p.gathers[g]? = some G → (f G).outer = some .ok →
         G.outer = some .ok ∨ ∀ t, Child.task t ∈ G.children → TaskFin p t) : Tame p (p.modGather g f) :=
   ⟨⟨rfl, rfl, rfl, rfl, rfl, rfl, rfl, fun h => h, List.Sublist.refl _, fun _ tk' h => ⟨tk', h, rfl⟩, rfl,
-    fun h => h.modGather g f hc ho, fun h => h.of_eq rfl rfl, rfl⟩, Nat.le_refl _, fun _ r' h => Or.inl ⟨r', h, MSigLe.refl r'⟩⟩
+    fun h => h.modGather g f hc ho, fun h => h.of_eq rfl rfl, rfl⟩, Nat.le_refl _, fun _ r' h => Or.inl ⟨r', h, MSigLe.refl r'⟩,
+    fun _ h => h.of_eq rfl rfl⟩
 
 theorem tame_emitRef (p : Pool) (r) : Tame p (p.emitRef r) := tame_of_eq _ _ rfl rfl
 theorem tame_logEv (p : Pool) (r) : Tame p (p.logEv r) := tame_of_eq _ _ rfl rfl
@@ -863,29 +1103,145 @@ theorem tame_cancelPoolWaiter (p : Pool) (m : Nat) :
      split at hp
      · cases hp
      · exact this hp, rfl⟩, Nat.le_refl _,
-   fun _ r' h => Or.inl ⟨r', h, MSigLe.refl r'⟩⟩
+   fun _ r' h => Or.inl ⟨r', h, MSigLe.refl r'⟩,
+   fun _ h => h.frame (fun m' x => ownCancelled_cancel m m' _ x) (fun _ r' a => Or.inl ⟨r', a, CSame.refl r'⟩)⟩
+
+theorem snapReq_cases (x : Req) :
+    snapReq x = x ∨ ((x.frame ≠ .running ∧ x.frame ≠ .done) ∧ x.cancelSnap = none ∧
+      snapReq x = { x with cancelSnap := some (x.created, x.pulled) }) := by
+  unfold snapReq
+  split
+  · rename_i h
+    right
+    simp only [Bool.and_eq_true, Option.isNone_iff_eq_none, bne_iff_ne, ne_eq] at h
+    exact ⟨⟨h.1.1, h.1.2⟩, h.2, rfl⟩
+  · left; rfl
+
+theorem _root_.Taskpool.MSigLe.snap {y x : Req} (h : MSigLe y x) : MSigLe (snapReq y) x := by
+  rcases snapReq_cases y with e | ⟨hy, _, e⟩ <;> rw [e]
+  · exact h
+  · refine ⟨h.value, h.grants, h.nc, h.pend, h.acq, h.cnt, h.fr, h.out, h.wk, ?_, h.pge⟩
+    intro hx
+    exfalso
+    rcases h.fr with e1 | e1
+    · rcases hx with hx | hx
+      · exact hy.1 (e1.trans hx)
+      · exact hy.2 (e1.trans hx)
+    · exact hy.2 e1
+
+/-- a first cancellation that establishes doom may take the snapshot -/
+theorem _root_.Taskpool.CancEx.snapAt {E : Nat → Prop} {p q : Pool} (h : CancEx E p) (m : Nat)
+    (hw : ∀ i, ownCancelled i p.sem.waiters → ownCancelled i q.sem.waiters)
+    (hr : ∀ (i : Nat) (r' : Req), q.reqs[i]? = some r' → ∃ y r, p.reqs[i]? = some r ∧ CSame y r ∧
+        (r' = y ∨ (i = m ∧ r' = snapReq y ∧ DoomedAt q m y))) : CancEx E q := by
+  intro i r' c u hr' hs
+  obtain ⟨y, r, a, b, hy⟩ := hr i r' hr'
+  have old : y.cancelSnap = some (c, u) → r'.frame = y.frame → r'.mustCancel = y.mustCancel → r'.mapSem = y.mapSem →
+      r'.created = y.created → r'.pulled = y.pulled →
+      r'.created = c ∧ r'.pulled = u ∧ (E i ∨ r'.frame = .done ∨ DoomedAt q i r') := by
+    intro hsy e1 e2 e3 e4 e5
+    obtain ⟨h1, h2, h3⟩ := h i r c u a (by rw [← b.cs]; exact hsy)
+    refine ⟨by rw [e4, b.cr]; exact h1, by rw [e5, b.pu]; exact h2, ?_⟩
+    rcases h3 with hE | h3
+    · exact Or.inl hE
+    right
+    unfold DoomedAt
+    rw [e1, e2, e3]
+    rcases b.fr with e | e
+    · rcases h3 with d | d
+      · left; rw [e]; exact d
+      · rcases d with d | ⟨d1, d2⟩ | ⟨d1, d2⟩
+        · rcases b.mc d with x | x
+          · exact Or.inr (Or.inl x)
+          · exact Or.inl x
+        · exact Or.inr (Or.inr (Or.inl ⟨by rw [e]; exact d1, hw i d2⟩))
+        · rcases b.mw i d2 with x | x
+          · exact Or.inr (Or.inr (Or.inr ⟨by rw [e]; exact d1, x⟩))
+          · exact Or.inl x
+    · exact Or.inl e
+  rcases hy with e | ⟨ei, e, hd⟩
+  · subst e
+    exact old hs rfl rfl rfl rfl rfl
+  · subst ei
+    rcases snapReq_cases y with e2 | ⟨_, hn, e2⟩
+    · rw [e2] at e; subst e
+      exact old hs rfl rfl rfl rfl rfl
+    · rw [e2] at e; subst e
+      simp only [Option.some.injEq, Prod.mk.injEq] at hs
+      exact ⟨hs.1, hs.2, Or.inr (Or.inr hd)⟩
+
+theorem getD_firstIsPending (m : Nat) (ws : List Waiter) (h : firstIsPending m ws = true) :
+    (removeWaiterL m ws).1 = some .pending := by
+  simpa [firstIsPending] using h
 
 theorem tame_metaCancel (p : Pool) (m) : Tame p (p.metaCancel m) := by
   unfold metaCancel
   split
   · exact Tame.refl p
-  · split
+  · rename_i r hr
+    split
     · exact Tame.refl p
     · split
-      · exact (tame_cancelPoolWaiter p m).trans (tame_schedMeta _ _)
+      · rename_i hc
+        simp only [Bool.and_eq_true, beq_iff_eq] at hc
+        refine Tame.trans (q := (({ p with sem := { p.sem with waiters := cancelWaiterL m p.sem.waiters } } : Pool).modReq m snapReq))
+          ?_ (tame_schedMeta _ _)
+        refine (tame_cancelPoolWaiter p m).trans (tame_modReq_of _ m snapReq (fun x => (MSigLe.refl x).snap) ?_)
+        intro E hk
+        refine hk.snapAt m (fun _ x => x) ?_
+        intro i r' h'
+        simp only [modReq] at h'
+        obtain ⟨x, hx, rfl⟩ := getElem?_modify_some p.reqs m i snapReq r' h'
+        refine ⟨x, x, hx, CSame.refl x, ?_⟩
+        split
+        · rename_i e; subst e
+          refine Or.inr ⟨rfl, rfl, Or.inr (Or.inl ⟨?_, ?_⟩)⟩
+          · rw [hr] at hx; cases hx; exact hc.1
+          · exact ownCancelled_of_pending m _ (getD_firstIsPending m _ hc.2)
+        · exact Or.inl rfl
       · split
-        · refine (tame_modReq p m _ ?_).trans (tame_schedMeta _ _)
-          intro x
-          refine ⟨rfl, grantsL_cancelWaiterL m _, rfl, Nat.le_refl _, fun h => h, rfl, Or.inl rfl, fun h => h, ?_, fun _ => Nat.le_refl _⟩
-          intro h v b c d w hw hp
-          have hg := grantsL_cancelWaiterL m x.mapSem.waiters
-          simp only [cancelWaiterL, List.mem_map] at hw
-          obtain ⟨w0, hw0, rfl⟩ := hw
-          have := h v b c (by rw [← hg]; exact d) w0 hw0
-          split at hp
-          · cases hp
-          · exact this hp
-        · exact tame_modReq p m _
+        · rename_i hc
+          simp only [Bool.and_eq_true, beq_iff_eq] at hc
+          have hms : ∀ x : Req, MSigLe { x with mapSem := { x.mapSem with waiters := cancelWaiterL m x.mapSem.waiters } } x := by
+            intro x
+            refine ⟨rfl, grantsL_cancelWaiterL m _, rfl, Nat.le_refl _, fun h => h, rfl, Or.inl rfl, fun h => h, ?_, fun _ => rfl, fun _ => Nat.le_refl _⟩
+            intro h v b c d w hw hp
+            have hg := grantsL_cancelWaiterL m x.mapSem.waiters
+            simp only [cancelWaiterL, List.mem_map] at hw
+            obtain ⟨w0, hw0, rfl⟩ := hw
+            have := h v b c (by rw [← hg]; exact d) w0 hw0
+            split at hp
+            · cases hp
+            · exact this hp
+          refine (tame_modReq_of p m _ (fun x => (hms x).snap) ?_).trans (tame_schedMeta _ _)
+          intro E hk
+          refine hk.snapAt m (fun _ x => x) ?_
+          intro i r' h'
+          simp only [modReq] at h'
+          obtain ⟨x, hx, rfl⟩ := getElem?_modify_some p.reqs m i _ r' h'
+          refine ⟨if m = i then { x with mapSem := { x.mapSem with waiters := cancelWaiterL m x.mapSem.waiters } } else x, x, hx, ?_, ?_⟩
+          · split
+            · exact ⟨rfl, rfl, rfl, Or.inl rfl, fun h => Or.inl h, fun i h => Or.inl (ownCancelled_cancel m i _ h)⟩
+            · exact CSame.refl x
+          · split
+            · rename_i e; subst e
+              rw [hr] at hx; cases hx
+              exact Or.inr ⟨rfl, rfl, Or.inr (Or.inr ⟨hc.1, ownCancelled_of_pending m _ (getD_firstIsPending m _ hc.2)⟩)⟩
+            · exact Or.inl rfl
+        · refine tame_modReq_of p m _ (fun x => MSigLe.snap ⟨rfl, rfl, rfl, Nat.le_refl _, fun h => h, rfl, Or.inl rfl, fun h => h, fun h => h, fun _ => rfl, fun _ => Nat.le_refl _⟩) ?_
+          intro E hk
+          refine hk.snapAt m (fun _ x => x) ?_
+          intro i r' h'
+          simp only [modReq] at h'
+          obtain ⟨x, hx, rfl⟩ := getElem?_modify_some p.reqs m i _ r' h'
+          refine ⟨if m = i then { x with mustCancel := true } else x, x, hx, ?_, ?_⟩
+          · split
+            · exact ⟨rfl, rfl, rfl, Or.inl rfl, fun _ => Or.inl rfl, fun i h => Or.inl h⟩
+            · exact CSame.refl x
+          · split
+            · rename_i e; subst e
+              exact Or.inr ⟨rfl, rfl, Or.inl rfl⟩
+            · exact Or.inl rfl
 
 end Pool
 end Taskpool
